@@ -284,16 +284,30 @@ func runC26(c *Ctx) {
 		}
 		ok := false
 		var pos token.Pos = fd.Pos()
-		for _, s := range fd.Body.List {
-			if g, isGo := s.(*ast.GoStmt); isGo && callIs(info, g.Call, mx(pipesPkg), "", "closePipe") && len(g.Call.Args) == 2 {
-				a0, ok0 := unparen(g.Call.Args[0]).(*ast.Ident)
-				a1, ok1 := unparen(g.Call.Args[1]).(*ast.Ident)
+		// the go statement may sit anywhere in Close (R26g proves that every success return lies behind it) and
+		// may wrap the call in a function literal: `go closePipe(n, name)` / `go func() { closePipe(n, name) }()`
+		ast.Inspect(fd.Body, func(nd ast.Node) bool {
+			g, isGo := nd.(*ast.GoStmt)
+			if !isGo {
+				return true
+			}
+			cands := []*ast.CallExpr{g.Call}
+			if lit, isLit := unparen(g.Call.Fun).(*ast.FuncLit); isLit && len(g.Call.Args) == 0 {
+				cands = calls(lit.Body, false)
+			}
+			for _, cl := range cands {
+				if !callIs(info, cl, mx(pipesPkg), "", "closePipe") || len(cl.Args) != 2 {
+					continue
+				}
+				a0, ok0 := unparen(cl.Args[0]).(*ast.Ident)
+				a1, ok1 := unparen(cl.Args[1]).(*ast.Ident)
 				if ok0 && ok1 && a0.Name == recvVar(fd) && len(params) == 1 && info.ObjectOf(a1) == params[0] {
 					ok = true
 					pos = g.Pos()
 				}
 			}
-		}
+			return true
+		})
 		c.Check(ok, "R26d", "Close:delayed-closer", pos, "Close starts `go closePipe(n, name)` with its own registry and name at its top level (after the error exits)")
 	}
 	if fd, _ := c.MustFunc("R26d", pipesPkg, "", "closePipe"); fd != nil {
